@@ -708,6 +708,9 @@ func runC17(rep *Report, r *Rng, tier string) {
 	}
 	for _, c := range corpus {
 		rep.Count("corpus")
+		if rep.NViol() >= 6 {
+			break
+		}
 		if runDrvCase(env, c, rep) {
 			rep.Note("run aborted after a hang (a blocked goroutine cannot be recovered in-process)")
 			return
